@@ -107,11 +107,30 @@ class Hub:
                 return x.copy() if x.size <= 200000 else None
             if isinstance(x, fd.Stock):
                 return StockSnap(x)
+            if type(x).__name__ == "DataFrame" and x.size <= 200000:
+                return FrameSnap(x)
             if isinstance(x, (list, tuple)) and 0 < len(x) <= 64 and all(isinstance(e, fd.FlodymArray) for e in x):
                 return [Snap(e) for e in x]
         except Exception:
             return None
         return None
+
+
+class FrameSnap:
+    """deep snapshot of a pandas DataFrame (values, column labels and dtypes, index)"""
+
+    __slots__ = ("df",)
+
+    def __init__(self, df):
+        self.df = df.copy(deep=True)
+
+    def same_as(self, df):
+        a = self.df
+        try:
+            return (list(a.columns) == list(df.columns) and list(a.dtypes.astype(str)) == list(df.dtypes.astype(str)) and list(a.index.names) == list(df.index.names)
+                    and a.index.equals(df.index) and a.equals(df))
+        except Exception:
+            return False
 
 
 class StockSnap:
